@@ -41,7 +41,9 @@ class NamesExtractor(walkers.dag.DagWalker):
         :param expression: The expression containing the names.
         :return: All the names contained in the given expression.
         """
-        return self.walk(expression)
+        # the walk returns the memoized set: give the caller its own copy, so
+        # that modifying the result does not alter the answers of later calls
+        return set(self.walk(expression))
 
     def _args_merge_in_place(self, args: List[Set[str]], base: Set[str]) -> Set[str]:
         for a in args:
